@@ -2,6 +2,10 @@
 BASE_OFF = "cd /repo && GOFLAGS=-mod=mod GOPROXY=off go test -mod=mod -json -vet=off -count=1 -timeout 25m ./..."
 
 ENGINES = [
+    dict(name="lastger", path="specs/LastGER.tla specs/LastGERTrace.tla harness/areas/lastger checks/C16.py", serves_properties=["C16"],
+         kind_free_text="TLC exhaustive on the PP downloader/driver/processor/reorg-detector spec (repaired rule passes; rule as coded and first repair "
+                        "candidate kept as counterexample regressions); sampled edge cover + seeded random + regression schedules replayed into the real "
+                        "lastgersync(PP) stack behind a gated fake L2 client; TLC trace validation"),
     dict(name="aggsender", path="specs/AggSender.tla specs/AggSenderTrace.tla harness/areas/aggsender checks/aggsender_common.py", serves_properties=["C02", "C03", "C09", "C13"],
          kind_free_text="implementation-shaped spec of the certificate send path (ticks, status checker, PP flow range/height/LER rules, SQL storage by "
                         "height, start-up reconciliation, crashes, DB loss) against a scripted Agglayer; TLC exhaustive; edge-cover behaviours replayed into "
@@ -74,6 +78,17 @@ CHECKS = {
       note="trusted: TLC; GER names recomputed by the driver; finality = FinalizedBlock, reorgs only above it; a scripted failing call has no effect; "
            "treadmill window 4/5 blocks (larger lags only by replay)",
       technique="TLA+ model checking incl. liveness (TLC) + behaviour replay into real code + TLC trace validation"),
+    "C16": dict(
+        engine="lastger", category="model_checking", design_ref="DESIGN.md section 5 C16",
+        text="TLC checks LastGER.tla (L2 chain <=5 blocks with <=1 GER insert/removal per block, downloaderPP cursor arithmetic, driver, processor tables, "
+             "reorg-detector contract, restarts, reorgs) against 'table = fold of the canonical events up to the last processed block, and up to the tip once "
+             "the node has polled it and is at rest'; the rule as coded (F2) and the repair without tip block must yield counterexamples. A seeded sample of "
+             "TLC's edge cover, seeded random schedules (<=12 blocks, <=5 GERs) and the F2/F2b regression schedules are replayed into the real "
+             "lastgersync.New(PP) (real downloader, EVMDriver, processor, L1-info store; gated fake L2 client with real headers/logs, reorg detector following "
+             "detectReorgInTrackedList); after every step every index X is queried and TLC judges each answer against the monitor LastGERTrace.tla.",
+        note="trusted: TLC; fake L2 client and reorg-detector contract; forks win only when longer; no RPC faults; 'first' = least index is noted, not demanded; "
+             "F2b (removal undone by a reorg is not restored) is a known finding with signature kf=F2b; FEP mode not covered",
+        technique="TLA+ model checking (TLC) + behaviour replay into real code + TLC trace validation"),
     "C17": dict(
         engine="certcut", category="model_checking", design_ref="DESIGN.md section 5 C17",
         text="TLC checks limitCertSize's loop, CertificateBuildParams.Range, MaxL2BlockNumberLimiter.AdaptCertificate and BlockRange.Gap as coded "
